@@ -106,6 +106,14 @@ def case_regimen(B, cfg):
         if bool(cond):
             B.eq('cumulative input after dose %d = %d doses' % (k + 1, k + 1),
                  cum, dose * (k + 1))
+    # the regimen stays applied when the solver is rebuilt for sensitivities
+    for step in ('enable', 'enable again', 'enable for a subset', 'disable'):
+        if step == 'enable for a subset':
+            m.enable_sensitivities(True, parameter_names=m.parameters()[:1])
+        else:
+            m.enable_sensitivities(step != 'disable')
+        B.fact('after %s sensitivities: reported regimen still applied' % step,
+               m.dosing_regimen() is reg and m._simulator._protocol is reg)
     # explicit protocol is passed through
     p = fm.Protocol()
     p.schedule(B.var('lv'), B.var('st'), B.var('du'), B.var('pe'), 2)
